@@ -37,6 +37,7 @@ pub struct Norm<'a> {
     pub errors: Vec<String>,
     pub closure_depth: usize,
     pub canaries: Vec<String>,
+    pub mut_slices: Vec<String>, // parameters of type `&mut [T]` (R-SLICEPAT binds `&mut s[k]` for them)
 }
 
 const ITER_HEADS_M: &[&str] = &["vx_iter", "vx_into_iter", "vx_iter_mut", "vx_chars", "vx_char_indices", "vx_bytes", "vx_keys", "vx_values"];
@@ -49,7 +50,7 @@ impl<'a> Norm<'a> {
             loop_no: 0, closure_no: 0, if_no: 0, match_no: 0, assert_no: 0, return_no: 0, forpat_no: 0, tmp_no: 0,
             call_no: Default::default(), let_no: Default::default(), hoisted: vec![], log: Default::default(),
             raws: vec![], used_anchors: Default::default(), avail_anchors: Default::default(), errors: vec![],
-            closure_depth: 0, canaries: vec![],
+            closure_depth: 0, canaries: vec![], mut_slices: vec![],
         }
     }
     pub fn bump(&mut self, r: &str) {
@@ -486,6 +487,18 @@ impl<'a> VisitMut for Norm<'a> {
 
     fn visit_expr_mut(&mut self, e: &mut Expr) {
         // ---- pre-order rewrites that change the node kind
+        // R-FORIDX: `for P in S { B }` (S a shared slice / &Vec) -> `{ let s = S; let mut i = 0; while i < s.len() { let P = &s[i]; i += 1; B } }`
+        let mut foridx: Option<Expr> = None;
+        if let Expr::ForLoop(f) = e {
+            if self.spec.foridx.contains(&(self.loop_no + 1)) {
+                let n = self.loop_no + 1;
+                let sv = Ident::new(&format!("__vx_s{}", n), Span::call_site());
+                let iv = Ident::new(&format!("__vx_i{}", n), Span::call_site());
+                let (pat, ex, body, label) = (&f.pat, &f.expr, &f.body.stmts, &f.label);
+                foridx = Some(parse_quote!({ let #sv = #ex; let mut #iv: usize = 0; #label while #iv < #sv.len() { let #pat = &#sv[#iv]; #iv += 1; #(#body)* } }));
+            }
+        }
+        if let Some(ne) = foridx { *e = ne; self.bump("R-FORIDX"); }
         match e {
             Expr::While(w) => {
                 if let Expr::Let(l) = &*w.cond {
@@ -681,7 +694,8 @@ impl<'a> VisitMut for Norm<'a> {
                             Pat::Wild(_) => { chain = Some(parse_quote!({ #body })); }
                             p => {
                                 if let Some((len, binds)) = Self::slice_pat_bindings(p) {
-                                    let lets: Vec<Stmt> = binds.iter().map(|(k, p)| { let k = LitInt::new(&k.to_string(), Span::call_site()); parse_quote!(let #p = &#base[#k];) }).collect();
+                                    let is_mut = matches!(&base, Expr::Path(bp) if bp.path.get_ident().map(|i| self.mut_slices.contains(&i.to_string())).unwrap_or(false));
+                                    let lets: Vec<Stmt> = binds.iter().map(|(k, p)| { let k = LitInt::new(&k.to_string(), Span::call_site()); if is_mut { parse_quote!(let #p = &mut #base[#k];) } else { parse_quote!(let #p = &#base[#k];) } }).collect();
                                     let len = LitInt::new(&len.to_string(), Span::call_site());
                                     chain = Some(match chain { Some(c) => parse_quote!(if #base.len() == #len { #(#lets)* #body } else #c), None => parse_quote!(if #base.len() == #len { #(#lets)* #body }) });
                                 } else { ok = false; break; }
@@ -939,6 +953,7 @@ impl<'a> Norm<'a> {
         let mut pos = 0;
         if let Some(Stmt::Local(l)) = body.stmts.first() {
             if let Some(init) = &l.init { if ts(&init.expr).starts_with("__vx_x") { pos = 1; } }
+            if let Some(init) = &l.init { if squash(&ts(&init.expr)).starts_with(&format!("&__vx_s{}[", n)) { pos = 2; } }
         }
         for (k, s) in s0.into_iter().enumerate() { body.stmts.insert(pos + k, s); }
         body.stmts.extend(s1);
